@@ -13,7 +13,7 @@
    by the harness — known finding K40 '+' and K49 live there), that Mediatype (F1) equals strip-and-lowercase outside
    quotes (checked against an independent Go reference on generated strings), and "never longer" — which is false
    of the code: known finding K50. *)
-From MV Require Import Base.MvBytes DataUri.DataUriModel DataUri.DataUriSpec DataUri.DataUriProofs.
+From MV Require Import Base.MvBytes DataUri.DataUriModel DataUri.DataUriSpec DataUri.DataUriProofs DataUri.MediatypeProofs.
 
 Theorem percent_roundtrip : forall d, bytes_ok d -> pct_decode (pct_encode d) = d.
 Proof. exact pct_roundtrip. Qed.
@@ -57,4 +57,37 @@ Example datauri_shape_nonvacuous :
   datauri_encode [100;97;116;97;58;59;98;97;115;101;54;52;44;89;87;74;106;90;71;86;109;90;50;103;61]
                  text_plain [97;98;99;100;101;102;103;104]
   = [100;97;116;97;58;44;97;98;99;100;101;102;103;104] (* data:;base64,YWJjZGVmZ2g= -> data:,abcdefgh *).
+Proof. vm_compute. reflexivity. Qed.
+
+(* ---------- minify.Mediatype ----------
+   The array-style model of the in-place function (write position, pending segment, ToLower on ranges; tied byte for byte with
+   the real function on every generated string) EQUALS the plain specification "drop white space and lower-case outside
+   double-quoted strings" for every input shorter than the function's own 1024 guard with an even number of quotes — a
+   theorem only since the repair of K135 (before, bytes INSIDE a quoted string were lower-cased after dropped white space).
+   With an odd number of quotes the tail of the unterminated string is lower-cased too (mediatype_unterminated_string), and
+   beyond the guard a long unquoted run keeps its case (MediatypeProofs.guard_needed): both stated exactly. *)
+Theorem mediatype_is_strip_and_lower_outside_quotes : forall b : bytes,
+  (length b < 1024)%nat -> even_quotes b = true -> mediatype_min b = mt_spec false b.
+Proof. exact mediatype_min_spec. Qed.
+Print Assumptions mediatype_is_strip_and_lower_outside_quotes.
+
+Theorem mediatype_unterminated_string : forall p s : bytes,
+  (length (p ++ 34%Z :: s) < 1024)%nat -> even_quotes p = true -> has_quote s = false ->
+  mediatype_min (p ++ 34%Z :: s) = mt_spec false p ++ 34%Z :: map to_lower s.
+Proof. exact mediatype_min_odd. Qed.
+Print Assumptions mediatype_unterminated_string.
+
+Theorem mediatype_keeps_quoted_strings : forall b : bytes,
+  (length b < 1024)%nat -> even_quotes b = true -> quoted false (mediatype_min b) = quoted false b.
+Proof. exact mediatype_min_quoted. Qed.
+Print Assumptions mediatype_keeps_quoted_strings.
+
+Theorem mediatype_idempotent_and_never_longer : forall b : bytes, (length b < 1024)%nat ->
+  mediatype_min (mediatype_min b) = mediatype_min b /\ (length (mediatype_min b) <= length b)%nat.
+Proof. intros b H. split; [exact (mediatype_min_idem_any b H) | exact (mediatype_min_length b H)]. Qed.
+Print Assumptions mediatype_idempotent_and_never_longer.
+
+(* the K135 witness: the D inside the second quoted string stays *)
+Example mediatype_nonvacuous :
+  mediatype_min [61;34;88;34;32;113;61;34;97;68;34;34;66;34]%Z = [61;34;88;34;113;61;34;97;68;34;34;66;34]%Z.   (* ="X" q="aD""B" *)
 Proof. vm_compute. reflexivity. Qed.
